@@ -15,6 +15,7 @@ import (
 	"encoding/json"
 	"fmt"
 	"os"
+	"runtime"
 	"strings"
 	"sync"
 	"unicode"
@@ -63,8 +64,75 @@ type C19Step struct {
 }
 
 type C19Out struct {
-	Init  []InitEnt `json:"init"`
-	Steps []C19Step `json:"steps"`
+	Init     []InitEnt `json:"init"`
+	Steps    []C19Step `json:"steps"`
+	BurstBad string    `json:"burstbad,omitempty"` // judged on the spot, after everything above was recorded
+}
+
+// After the observed part of a burst world: `rounds` more bursts of throw-away
+// names, `goroutines` released together each registering `each` names of its
+// own; after every join all names registered so far must be listed by
+// auto.ListStyles, resolve through the registry, and a few of them are
+// selected through auto.New and must render with the decoration they were
+// registered with.  Returns what went wrong first, or "".
+func c19BurstRounds(rounds, goroutines, each int, ids map[string]int) string {
+	if runtime.GOMAXPROCS(0) < 4 {
+		defer runtime.GOMAXPROCS(runtime.GOMAXPROCS(4))
+	}
+	type ent struct {
+		name string
+		dec  int
+	}
+	var all []ent
+	for r := 0; r < rounds; r++ {
+		start := make(chan struct{})
+		var wg sync.WaitGroup
+		batch := make([][]ent, goroutines)
+		for g := 0; g < goroutines; g++ {
+			for k := 0; k < each; k++ {
+				batch[g] = append(batch[g], ent{fmt.Sprintf("%c-burst.%d.%d.%d", "azm0"[(g+k)%4], r, g, k), 1 + (r+g+k)%(len(regPalette)-1)})
+			}
+			wg.Add(1)
+			go func(g int) {
+				defer wg.Done()
+				<-start
+				for _, e := range batch[g] {
+					decoration.RegisterDecorationName(e.name, regPalette[e.dec])
+				}
+			}(g)
+		}
+		close(start)
+		wg.Wait()
+		for g := range batch {
+			all = append(all, batch[g]...)
+		}
+		listed := map[string]bool{}
+		prev := ""
+		for i, n := range auto.ListStyles() {
+			if i > 0 && n < prev {
+				return fmt.Sprintf("burst round %d: ListStyles not sorted at %q", r, n)
+			}
+			listed[n] = true
+			prev = n
+		}
+		for _, e := range all {
+			if !listed[e.name] {
+				return fmt.Sprintf("burst round %d: %q was registered (all registrations have returned) but is not listed", r, e.name)
+			}
+			if d := decID(decoration.Named(e.name)); d != e.dec {
+				return fmt.Sprintf("burst round %d: Named(%q) is decoration %d, registered was %d", r, e.name, d, e.dec)
+			}
+		}
+		for _, e := range []ent{all[len(all)-1], all[(r*7)%len(all)], all[len(all)-goroutines*each]} {
+			for _, style := range []string{e.name, "texttable." + e.name} {
+				q := c19Ask(c19ask{style, "burst"}, ids)
+				if q.Kind != "text" || q.R.K != "ok" || q.R.ID != e.dec {
+					return fmt.Sprintf("burst round %d: auto.New(%q) is a %s rendering %s id=%d, registered was decoration %d", r, style, q.Type, q.R.K, q.R.ID, e.dec)
+				}
+			}
+		}
+	}
+	return ""
 }
 
 var subPkgs = []string{"csv", "html", "json", "markdown", "texttable"}
@@ -109,6 +177,8 @@ func asciiVariants(s string) []string {
 }
 
 type c19ask struct{ s, class string }
+
+var c19HeldStyles = []string{"ascii-simple", "csv", "none", "markdown", "utf8-double", "html", "json"}
 
 // level 0: the listed names only; 1: plus prefixes/variants/trailing sections of
 // the names registered in this world, a small sub-package block and the hostile
@@ -180,6 +250,40 @@ func c19Queries(listing []string, extra []string, level int, mine map[string]boo
 			}
 		}
 	}
+	// a sub-package keyword as the section after "texttable" is a decoration name (an
+	// unknown one, unless registered); sections with = and quotes after a keyword are
+	// unknown trailing sections like any other
+	for i, p := range subPkgs {
+		vs := []string{p}
+		if level == 2 {
+			vs = append(vs, asciiVariants(p)...)
+		} else {
+			vs = append(vs, asciiVariants(p)[(i+1+len(listing))%4])
+			if p != "html" && (i+len(listing))%5 >= 2 {
+				add("texttable."+p, "keyword-after-texttable")
+				continue
+			}
+		}
+		for j, v := range vs {
+			if level == 2 || j == 0 {
+				add("texttable."+v, "keyword-after-texttable")
+				add("texttable."+v+".utf8-light", "keyword-after-texttable")
+			}
+			if level == 2 || j == 1 {
+				add([]string{"TextTable.", "TEXTTABLE.", "tExTtAbLe."}[(i+j)%3]+v, "keyword-after-texttable")
+			}
+			if level == 2 {
+				add("texttable."+v+".x", "keyword-after-texttable")
+			}
+			opts := []string{`note="draft`, `x="`, `a=b.v="1.2`, `id="x"`, `class=a b`, `caption="c.d"`, `k=`, `"`, `=`, `caption=`, `id=x.class="y z".caption="t`, `""`, `="`}
+			if level < 2 {
+				opts = []string{opts[(i+2*j+len(listing))%len(opts)], []string{`x="`, `note="draft`, `a=b.v="1.2`}[(i+j)%3]}
+			}
+			for _, o := range opts {
+				add(v+"."+o, "option-like-trailing-section")
+			}
+		}
+	}
 	hostile := []string{"", ".", "..", "nosuch", "nosuch.x", "NONE", "texttable.nosuch", "texttable.", "texttable..",
 		"texttable.texttable", "texttable.csv", "csv.texttable", "texttable.NONE", "none.utf8-light", "utf8-light-curved.x",
 		"mar\u212Adown", "mar\u212Adown.x", "ｃｓｖ", "\xff", "CSV\xff", "İ", "csſ", "csv ", " csv", "csvx", "cs", "text", "texttablex"}
@@ -227,6 +331,48 @@ func c19Ask(a c19ask, ids map[string]int) (q C19Q) {
 	return q
 }
 
+// The same question asked of a table the application already holds wrapped:
+// held := auto.New(heldStyle), filled and rendered; then auto.Wrap(held, style)
+// must resolve exactly as for a fresh table (first answer), and held itself
+// must afterwards still render as heldStyle does (second answer, recorded as a
+// question about heldStyle).
+func c19AskHeld(a c19ask, heldStyle string, ids map[string]int) (qs []C19Q) {
+	var q, h C19Q
+	q.S, q.Class = qname(a.s), "rewrap:"+a.class
+	first := strings.Split(a.s, ".")[0]
+	q.First, q.Lower = qname(first), qname(strings.ToLower(first))
+	h.S, h.Class = qname(heldStyle), "held-wrapper-after-rewrap"
+	hfirst := strings.Split(heldStyle, ".")[0]
+	h.First, h.Lower = qname(hfirst), qname(strings.ToLower(hfirst))
+	stage := 0
+	defer func() {
+		if p := recover(); p != nil {
+			bad := C19Q{Kind: "other", R: RRes{K: "panic", Msg: fmt.Sprint(p)}}
+			if stage < 2 {
+				q.Kind, q.R = bad.Kind, bad.R
+				qs = []C19Q{q}
+			} else {
+				h.Kind, h.R = bad.Kind, bad.R
+				qs = []C19Q{q, h}
+			}
+		}
+	}()
+	held := auto.New(heldStyle)
+	held.AddHeaders("h1", "h2")
+	held.AddRowItems("a", "b")
+	held.Render()
+	stage = 1
+	r := auto.Wrap(held, a.s)
+	q.Kind = c19Kind(r)
+	q.Type = fmt.Sprintf("%T over %T", r, held)
+	q.R = renderRes(r.Render, ids)
+	stage = 2
+	h.Kind = c19Kind(held)
+	h.Type = fmt.Sprintf("%T", held)
+	h.R = renderRes(held.Render, ids)
+	return []C19Q{q, h}
+}
+
 func c19Worker() {
 	paletteInit()
 	var spec C19Spec
@@ -272,7 +418,7 @@ func c19Worker() {
 		out.Init = dumpRegistry()
 	}
 	mine := map[string]bool{}
-	observe := func(level int) {
+	observe := func(level int, final bool) {
 		var st C19Step
 		l := auto.ListStyles()
 		for _, n := range l {
@@ -280,6 +426,27 @@ func c19Worker() {
 		}
 		for _, a := range c19Queries(l, spec.Extra, level, mine) {
 			st.Qs = append(st.Qs, c19Ask(a, ids))
+		}
+		if level >= 1 && final {
+			// after the last registration: re-wrapping a held wrapper - the styles that matter
+			// for three (level 2: all) held kinds in turn, the names of this world and a
+			// rotating choice of the rest for one held kind each
+			n := 0
+			for _, a := range c19Queries(l, spec.Extra, level, mine) {
+				always := a.s == "texttable" || a.s == "nosuch" || a.s == "texttable.nosuch"
+				if always {
+					for hi, hs := range c19HeldStyles {
+						if level == 2 || (hi+len(l))%7 < 3 {
+							st.Qs = append(st.Qs, c19AskHeld(a, hs, ids)...)
+						}
+					}
+					continue
+				}
+				n++
+				if mine[a.s] || (level == 2 && n%4 == 0) || n%24 == 0 {
+					st.Qs = append(st.Qs, c19AskHeld(a, c19HeldStyles[(n+len(l))%len(c19HeldStyles)], ids)...)
+				}
+			}
 		}
 		out.Steps = append(out.Steps, st)
 	}
@@ -309,30 +476,31 @@ func c19Worker() {
 				out.Steps = append(out.Steps, C19Step{Skipped: true})
 			}
 		}
-		observe(0)
+		observe(0, false)
+		out.BurstBad = c19BurstRounds(40, 16, 3, ids)
 		json.NewEncoder(os.Stdout).Encode(out)
 		return
 	}
 	if first == 1 {
 		mine[unq(spec.Regs[0].N)] = true
 		if len(spec.Regs) == 1 {
-			observe(last)
+			observe(last, true)
 		} else {
-			observe(1)
+			observe(0, false)
 		}
 	} else if len(spec.Regs) == 0 {
-		observe(last)
+		observe(last, true)
 	} else if !spec.Cold {
-		observe(0)
+		observe(0, false)
 	}
 	for i := first; i < len(spec.Regs); i++ {
 		r := spec.Regs[i]
 		decoration.RegisterDecorationName(unq(r.N), regPalette[r.D])
 		mine[unq(r.N)] = true
 		if i == len(spec.Regs)-1 {
-			observe(last)
+			observe(last, true)
 		} else {
-			observe(1)
+			observe(0, false)
 		}
 	}
 	json.NewEncoder(os.Stdout).Encode(out)
@@ -378,6 +546,10 @@ func c19Run(spec json.RawMessage) CaseOut {
 		desc.Crash = true
 		desc.Sig = "worker-crash"
 		desc.Report = trunc(cr.Stderr, 6000)
+	} else if out.BurstBad != "" {
+		bad = true
+		desc.Sig = "concurrent-registration-lost"
+		desc.Report = out.BurstBad
 	}
 	// Go-side reading of the observations, for the failure signature and the
 	// human-readable part of a replay only (the verdict is Coq's)
@@ -700,6 +872,8 @@ func init() {
 			"decorations: the built-ins, Populate()d ones and four written field by field without Populate (render fields only; only Horizontal/Vertical; a single field; verticals only) - anything but the zero value. " +
 			"Every other world is cold: its first registration is the first thing the process asks of the registry (no listing or lookup before it). " +
 			"4 (thorough 16) worlds register 48 distinct names at once from 8-16 goroutines and look only at the state after the join. " +
+			"After the last registration: every sub-package keyword (in ASCII case variants) as the section after 'texttable'; trailing sections with = and quotes (closed, unclosed, empty) after the keywords; " +
+			"and styles resolved not on a fresh table but on one the application already holds wrapped (auto.New of ascii-simple, csv, none, markdown, utf8-double, html, json), the held wrapper re-rendered afterwards. " +
 			"Near misses of listed names (n+x, n+such, n minus its last byte, texttable.n+d) are asked and must name nothing. " +
 			"Before the first and after each registration: ListStyles and, per listed name, the name itself and 'texttable.'+name; after the last registration also case variants, " +
 			"'TextTable.' prefixes and trailing sections of every listed name, all five sub-package names in 5 ASCII case variants x 6 trailing forms, and 28 unknown/hostile strings. " +
